@@ -151,6 +151,41 @@ type pred struct {
 	Value any     // the full output
 	Whole bool    // AddInput(pred) without mappings: the entire output becomes the entire input
 	Chunk [][]any // chunkings used for stream runs; Chunk[0] is always the single full value
+	Mode  int     // how the successor declares this predecessor (mDirect ...)
+	Relay bool    // mIndirectRelay: the relay node takes the predecessor's entire output (else only depends on it)
+}
+
+// ways of declaring a predecessor of the successor node
+const (
+	mDirect         = iota // succ.AddInput(pred, mappings...)
+	mDirectOpts            // succ.AddInputWithOptions(pred, mappings) without options
+	mIndirectDep           // succ.AddInputWithOptions(pred, mappings, WithNoDirectDependency()) and succ.AddDependency(pred)
+	mIndirectRelay         // ... WithNoDirectDependency(); control reaches succ through a relay node: pred -> relay, succ.AddDependency(relay)
+	mIndirectBranch        // ... WithNoDirectDependency(); control reaches succ through a branch below pred that selects succ
+	mAddEnd                // the deprecated wf.AddEnd(pred, mappings...) (successor END only)
+)
+
+var modeNames = [...]string{"AddInput", "AddInputWithOptions", "AddInputWithOptions+NoDirectDependency+AddDependency",
+	"AddInputWithOptions+NoDirectDependency+relay-node", "AddInputWithOptions+NoDirectDependency+branch", "AddEnd"}
+
+func (p *pred) indirect() bool { return p.Mode >= mIndirectDep && p.Mode <= mIndirectBranch }
+
+func pickMode(r *mon.Rand, succEnd bool) int {
+	switch k := r.Intn(100); {
+	case k < 36:
+		return mDirect
+	case k < 44:
+		return mDirectOpts
+	case k < 62:
+		return mIndirectDep
+	case k < 78:
+		return mIndirectRelay
+	case k < 92:
+		return mIndirectBranch
+	case succEnd:
+		return mAddEnd
+	}
+	return mDirect
 }
 
 type Case struct {
@@ -793,6 +828,10 @@ func tryGenCase(r *mon.Rand) *Case {
 		}
 	}
 
+	for _, p := range c.Preds {
+		p.Mode = pickMode(r, c.SuccEnd)
+		p.Relay = r.Bool()
+	}
 	switch fs := c.features(); len(fs) {
 	case 0:
 	case 1:
@@ -1075,6 +1114,60 @@ func genValues(r *mon.Rand, c *Case, roles map[string]reflect.Type) {
 	}
 }
 
+func exportedName(s string) bool { return s != "" && s[0] >= 'A' && s[0] <= 'Z' }
+
+// nest builds a value in which the steps exist one below the other, as fields of
+// run-time made structs (or pointers to them) or as keys of typed maps, and lead to x.
+// Every level has a concrete (non-interface) type.
+func nest(r *mon.Rand, steps []string, x reflect.Value) reflect.Value {
+	v := x
+	for i := len(steps) - 1; i >= 0; i-- {
+		name := steps[i]
+		if exportedName(name) && r.Prob(0.6) {
+			st := reflect.StructOf([]reflect.StructField{{Name: name, Type: v.Type()}})
+			sv := reflect.New(st).Elem()
+			sv.Field(0).Set(v)
+			if r.Bool() {
+				v = sv.Addr()
+			} else {
+				v = sv
+			}
+			continue
+		}
+		mv := reflect.MakeMap(reflect.MapOf(tString, v.Type()))
+		mv.SetMapIndex(reflect.ValueOf(name), v)
+		v = mv
+	}
+	return v
+}
+
+// hostileLeaves: concretely typed values below which the step `next` does not exist.
+func hostileLeaves(r *mon.Rand, next string) []reflect.Value {
+	out := []reflect.Value{
+		reflect.ValueOf(NoS{X: 1}),
+		reflect.ValueOf(&NoS{X: 2}),
+		reflect.ValueOf(7),
+		reflect.ValueOf("text"),
+		reflect.ValueOf((*Leaf)(nil)),
+		reflect.ValueOf(map[int]string{1: "x"}),
+		reflect.ValueOf(map[string]string{"other": "x"}),
+		reflect.ValueOf(map[string]Leaf{"other": {S: "x"}}),
+	}
+	if next != "S" && next != "N" {
+		out = append(out, reflect.ValueOf(Leaf{S: r.Str(1, 3), N: 3}), reflect.ValueOf(&Leaf{S: r.Str(1, 3), N: 4}))
+	}
+	return out
+}
+
+// classOf: what the reference finds for mapping m on the present predecessor output
+// ("" if the value exists and fits): the name of the hostile element.
+func (c *Case) classOf(m mapping, root reflect.Value) string {
+	e := &expectation{}
+	tgt := reflect.New(c.Tgt).Elem()
+	c.apply(e, tgt, m, root.Interface())
+	return e.Class
+}
+
 func injectHazard(r *mon.Rand, c *Case, roots []reflect.Value) {
 	order := r.Perm(len(c.Maps))
 	for _, mi := range order {
@@ -1082,89 +1175,85 @@ func injectHazard(r *mon.Rand, c *Case, roots []reflect.Value) {
 		sc := m.src
 		root := roots[m.Pred]
 		var opts []func() string
-		if sc.Dyn {
-			at := sc.Path[:sc.IfaceAt]
-			isShape := false
-			if lt, ok := leafTypeSrc(c.Preds[m.Pred].Type, at); ok && lt == tShape {
-				isShape = true
-			}
-			field := sc.Path[len(sc.Path)-1]
-			set := func(v any, name string) func() string {
-				return func() string {
-					if err := refSet(root, at, v); err != nil {
-						return ""
-					}
-					return name
+		// put v at the interface-typed position `at`; the name is what the reference then finds
+		set := func(at []string, v any, fallback string) func() string {
+			return func() string {
+				if err := srcPlace(root, at, v); err != nil {
+					return ""
 				}
+				if cls := c.classOf(m, root); cls != "" {
+					return cls
+				}
+				return fallback
 			}
-			if sc.Need == tPMid && sc.Leaf == tAny {
-				// the *Mid held by the interface has a nil value at the end of the path
-				opts = append(opts, func() string {
-					mid := genValue(r, tMid, 3)
-					mid.FieldByName(sc.Path[sc.IfaceAt]).SetMapIndex(reflect.ValueOf(sc.Path[sc.IfaceAt+1]), reflect.Zero(tAny))
-					if err := refSet(root, at, mid.Addr().Interface()); err != nil {
-						return ""
-					}
-					return "interface-source-path-yields-nil"
-				})
+		}
+		for k, n := range sc.Ifaces {
+			at := sc.Path[:n]
+			steps := sc.Path[n:]
+			isShape := sc.IfaceTs[k] == tShape
+			opts = append(opts,
+				set(at, NoS{X: 1}, "interface-source-holds-struct-without-the-field"),
+				set(at, nil, "interface-source-holds-nil"),
+				set(at, (*Leaf)(nil), "interface-source-holds-nil-pointer"),
+				set(at, Odd{S: 5, N: "n", PL: &NoS{X: 3}, PM: &Leaf{S: "o"}, MS: map[string]int{"k1": 1, "k2": 2}, MA: map[string]string{"k1": "a", "k2": "b"},
+					ML: map[string]NoS{"k1": {}, "k2": {}}, MP: map[string]*NoS{"k1": {}, "k2": nil}, MM: map[string]Leaf{"k1": {S: "m"}, "k2": {}}, MPM: map[string]*Leaf{"k1": {S: "p"}, "k2": nil}},
+					"dynamic-value-is-a-look-alike-struct"),
+				set(at, &Odd{S: 6, N: "m", M: Leaf{S: "q", N: 1}, MS: map[string]int{"k1": 1}, MM: map[string]Leaf{"k1": {S: "m"}, "k2": {}}, MPM: map[string]*Leaf{"k1": {S: "p"}, "k2": {}}},
+					"dynamic-value-is-a-look-alike-struct"))
+			if isShape {
+				continue
 			}
 			opts = append(opts,
-				set(NoS{X: 1}, "interface-source-holds-struct-without-the-field"),
-				set(nil, "interface-source-holds-nil"),
-				set((*Leaf)(nil), "interface-source-holds-nil-pointer"))
-			if !isShape && len(sc.Path)-sc.IfaceAt == 1 {
-				wrong := any(7)
-				if field == "N" {
-					wrong = "seven"
-				}
-				opts = append(opts,
-					set("text", "interface-source-holds-non-container"),
-					set(map[int]string{1: "x"}, "interface-source-holds-map-with-non-string-key"),
-					set(map[string]any{"other": 1}, "interface-source-holds-map-without-the-key"),
-					set(map[string]any{field: wrong}, "interface-source-path-yields-wrong-type"),
-					set(map[string]any{field: nil}, "interface-source-path-yields-nil"))
+				set(at, "text", "interface-source-holds-non-container"),
+				set(at, map[int]string{1: "x"}, "interface-source-holds-map-with-non-string-key"),
+				set(at, map[string]any{"other": 1}, "interface-source-holds-map-without-the-key"))
+			// the first j steps exist below the interface (all concretely typed), step j+1 does not
+			for rep := 0; rep < 3 && len(steps) >= 2; rep++ {
+				j := r.Range(1, len(steps)-1)
+				hl := hostileLeaves(r, steps[j])
+				x := hl[r.Intn(len(hl))]
+				v := nest(r, steps[:j], x)
+				opts = append(opts, set(at, v.Interface(), "dynamic-value-lacks-a-deeper-step"))
 			}
-		} else if sc.IfaceAt == len(sc.Path) && len(sc.Path) > 0 && m.lt.Kind() != reflect.Interface {
-			// interface-typed source field feeding a typed target
-			at := sc.Path
+			// the whole path exists, its end holds a value of another type / nil
+			wrong := reflect.ValueOf(7)
+			if m.lt == tInt {
+				wrong = reflect.ValueOf("seven")
+			}
+			last := steps[len(steps)-1]
+			opts = append(opts,
+				set(at, nest(r, steps, wrong).Interface(), "interface-source-path-yields-wrong-type"),
+				set(at, nest(r, steps[:len(steps)-1], reflect.ValueOf(map[string]any{last: wrong.Interface()})).Interface(), "interface-source-path-yields-wrong-type"),
+				set(at, nest(r, steps[:len(steps)-1], reflect.ValueOf(map[string]any{last: nil})).Interface(), "interface-source-path-yields-nil"),
+				set(at, nest(r, steps[:len(steps)-1], reflect.ValueOf(map[string]*Leaf{last: nil})).Interface(), "interface-source-path-yields-nil-pointer"))
+		}
+		if sc.Leaf.Kind() == reflect.Interface && len(sc.Path) > 0 && m.lt.Kind() != reflect.Interface {
+			// interface-typed source position feeding a typed target
 			wrong := any(7)
 			if m.lt == tInt {
 				wrong = "seven"
 			}
 			if sc.Leaf == tShape {
 				wrong = NoS{X: 2}
-				if m.lt == reflect.TypeOf(NoS{}) {
+				if m.lt == tNoS {
 					wrong = Leaf{}
 				}
 			}
 			opts = append(opts,
-				func() string {
-					if refSet(root, at, wrong) != nil {
-						return ""
-					}
-					return "interface-source-value-of-wrong-type"
-				},
-				func() string {
-					if refSet(root, at, nil) != nil {
-						return ""
-					}
-					return "interface-source-value-nil"
-				})
+				set(sc.Path, wrong, "interface-source-value-of-wrong-type"),
+				set(sc.Path, nil, "interface-source-value-nil"))
 		}
 		if sc.PtrAt >= 0 && sc.PtrAt < len(sc.Path) {
-			at := sc.Path[:sc.PtrAt]
-			opts = append(opts, func() string {
-				if refSet(root, at, nil) != nil {
-					return ""
-				}
-				return "nil-pointer-on-source-path"
-			})
+			opts = append(opts, set(sc.Path[:sc.PtrAt], nil, "nil-pointer-on-source-path"))
 		}
 		if sc.MapAt >= 0 && sc.MapAt < len(sc.Path) {
 			at := sc.Path[:sc.MapAt+1]
 			opts = append(opts, func() string {
 				if !deleteKey(root, at) {
 					return ""
+				}
+				if cls := c.classOf(m, root); cls != "" {
+					return cls
 				}
 				return "absent-map-key-on-source-path"
 			})
@@ -1306,8 +1395,9 @@ func (c *Case) witness(order string, extra string) witness {
 	}
 	for _, p := range c.Preds {
 		s := p.Key + ":" + typeName(p.Type)
+		s += " declared by " + modeNames[p.Mode]
 		if p.Whole {
-			s += " (AddInput without mappings)"
+			s += " (without mappings)"
 		}
 		w.Preds = append(w.Preds, s)
 		w.Values = append(w.Values, p.Key+"="+treeOf(p.Value).String())
@@ -1326,7 +1416,7 @@ func (c *Case) digest() string {
 	var b strings.Builder
 	fmt.Fprintf(&b, "%v|%v|", c.Tgt, c.SuccEnd)
 	for _, p := range c.Preds {
-		fmt.Fprintf(&b, "%v,%v,%v;", p.Type, p.Start, p.Whole)
+		fmt.Fprintf(&b, "%v,%v,%v,%d;", p.Type, p.Start, p.Whole, p.Mode)
 	}
 	for _, m := range c.Maps {
 		b.WriteString(m.String(c) + ";")
